@@ -189,11 +189,11 @@ func (its *PushPullHandler) process(retCh chan *model.PushPullPack) {
 
 	defer its.finalize()
 
-	if its.err = its.validatePushPullPack(); its.err != nil {
+	if its.err = its.initialize(retCh); its.err != nil {
 		return
 	}
 
-	if its.err = its.initialize(retCh); its.err != nil {
+	if its.err = its.validatePushPullPack(); its.err != nil {
 		return
 	}
 
